@@ -109,3 +109,94 @@ Theorem C01_run_tprod : forall K (O : Ops K), Laws O -> forall n1 (ops : list (r
   forall p q i, run O ops (tprod O n1 p q) i = tprod O n1 (run O (ops_first n1 ops) p) (run O (ops_second n1 ops) q) i.
 Proof. exact @run_tprod. Qed.
 Print Assumptions C01_run_tprod.
+
+(* ---- the remaining slicing fast paths (Sim/Kernels2Proofs.v): each `_apply_unitary_` kernel, modelled statement by
+   statement (subspace_index slices, buffers, final multiplication by the global-shift phase p), IS the action of the
+   documented matrix on the chosen axes, for every register size, axis placement and initial buffer content ---- *)
+From VF Require Import Gates.GateSpecs Gates.Families Sim.Kernels2 Sim.Kernels2Proofs Sim.Classical Sim.ClassicalProofs Sim.Permute Sim.PermuteProofs.
+Theorem C01_kernel_SWAP_sound : forall K (O : Ops K), Laws O -> forall a0 a1 (psi buf : tensor (K:=K)) i,
+  a0 < length i -> a1 < length i -> a0 <> a1 -> get i a0 < 2 -> get i a1 < 2 -> forall p,
+  kernel_SWAP O buf p a0 a1 psi i = apply O (mat_of O [2; 2] (spec_SwapPow O (ki O) (kopp O (ki O)) p)) [2; 2] [a0; a1] psi i.
+Proof. exact @kernel_SWAP_sound. Qed.
+Print Assumptions C01_kernel_SWAP_sound.
+Theorem C01_kernel_ISWAP_sound : forall K (O : Ops K), Laws O -> forall a0 a1 (psi buf : tensor (K:=K)) i,
+  a0 < length i -> a1 < length i -> a0 <> a1 -> get i a0 < 2 -> get i a1 < 2 -> forall p,
+  kernel_ISWAP O buf p a0 a1 psi i = apply O (mat_of O [2; 2] (spec_ISwapPow O (ki O) (kopp O (ki O)) p)) [2; 2] [a0; a1] psi i.
+Proof. exact @kernel_ISWAP_sound. Qed.
+Print Assumptions C01_kernel_ISWAP_sound.
+Theorem C01_kernel_CCZ_sound : forall K (O : Ops K), Laws O -> forall a0 a1 a2 (psi : tensor (K:=K)) i,
+  a0 < length i -> a1 < length i -> a2 < length i -> a0 <> a1 -> a0 <> a2 -> a1 <> a2 ->
+  get i a0 < 2 -> get i a1 < 2 -> get i a2 < 2 -> forall r rc p,
+  kernel_CCZ O (kmul O r r) p a0 a1 a2 psi i = apply O (mat_of O [2; 2; 2] (spec_CCZPow O r rc p)) [2; 2; 2] [a0; a1; a2] psi i.
+Proof. exact @kernel_CCZ_sound. Qed.
+Print Assumptions C01_kernel_CCZ_sound.
+Theorem C01_kernel_CCX_sound : forall K (O : Ops K), Laws O -> forall a0 a1 a2 (psi : tensor (K:=K)) i,
+  a0 < length i -> a1 < length i -> a2 < length i -> a0 <> a1 -> a0 <> a2 -> a1 <> a2 ->
+  get i a0 < 2 -> get i a1 < 2 -> get i a2 < 2 -> forall r rc p,
+  kernel_CC1 O (apply O (mat_of O [2] (spec_XPow O r rc (k1 O))) [2] [a2]) p a0 a1 psi i
+  = apply O (mat_of O [2; 2; 2] (spec_CCXPow O r rc p)) [2; 2; 2] [a0; a1; a2] psi i.
+Proof. exact @kernel_CCX_sound. Qed.
+Print Assumptions C01_kernel_CCX_sound.
+Theorem C01_kernel_CSWAP_sound : forall K (O : Ops K), Laws O -> forall a0 a1 a2 (psi buf : tensor (K:=K)) i,
+  a0 < length i -> a1 < length i -> a2 < length i -> a0 <> a1 -> a0 <> a2 -> a1 <> a2 ->
+  get i a0 < 2 -> get i a1 < 2 -> get i a2 < 2 ->
+  kernel_CSWAP buf a0 a1 a2 psi i = apply O (mat_of O [2; 2; 2] (spec_CSwap O)) [2; 2; 2] [a0; a1; a2] psi i.
+Proof. exact @kernel_CSWAP_sound. Qed.
+Print Assumptions C01_kernel_CSWAP_sound.
+Theorem C01_kernel_FSim_sound : forall K (O : Ops K), Laws O -> forall a0 a1 (psi : tensor (K:=K)) i,
+  a0 < length i -> a1 < length i -> a0 <> a1 -> get i a0 < 2 -> get i a1 < 2 -> forall (th ph : bool) u uc v vc,
+  (th = false -> u = k1 O /\ uc = k1 O) -> (ph = false -> vc = k1 O) ->
+  kernel_FSim O th ph u uc vc a0 a1 psi i = apply O (mat_of O [2; 2] (spec_FSim O u uc v vc)) [2; 2] [a0; a1] psi i.
+Proof. exact @kernel_FSim_sound. Qed.
+Print Assumptions C01_kernel_FSim_sound.
+Theorem C01_kernel_Zd_sound : forall K (O : Ops K), Laws O -> forall w p d a (psi : tensor (K:=K)) i, get i a < d ->
+  kernel_Zd O (fun k => kpow O w k) p d a psi i = apply O (mat_of O [d] (spec_ZdPow O d w p)) [d] [a] psi i.
+Proof. exact @kernel_Zd_sound. Qed.
+Print Assumptions C01_kernel_Zd_sound.
+Theorem C01_kernel_DiagN_sound : forall K (O : Ops K), Laws O -> forall ds ax (psi : tensor (K:=K)) i,
+  length ds = Nat.pow 2 (length ax) -> Forall2 lt (gets i ax) (repeat 2 (length ax)) ->
+  kernel_Diag O ds ax psi i = apply O (mat_of O (repeat 2 (length ax)) (spec_Diagonal O ds)) (repeat 2 (length ax)) ax psi i.
+Proof. exact @kernel_DiagN_sound. Qed.
+Print Assumptions C01_kernel_DiagN_sound.
+Theorem C01_kernel_Perm_sound : forall K (O : Ops K), Laws O -> forall perm ax (psi : tensor (K:=K)) j,
+  NoDup perm -> (forall p, In p perm -> p < length perm) -> length ax = length perm ->
+  Forall2 lt (gets j ax) (repeat 2 (length perm)) ->
+  kernel_Perm perm ax psi j = apply O (mat_of O (repeat 2 (length perm)) (perm_matrix O perm)) (repeat 2 (length perm)) ax psi j.
+Proof. exact @kernel_Perm_sound. Qed.
+Print Assumptions C01_kernel_Perm_sound.
+
+(* ---- the classical basis-state simulator (Sim/ClassicalProofs.v): whenever its update rule accepts an operation, the
+   documented matrix maps the tracked basis state to a phase times the updated basis state - for every register size,
+   axis placement and control-value set; lifted to operation lists ---- *)
+Theorem C01_classical_tracks : forall K (O : Ops K), Laws O -> forall o b b',
+  classical_step o b = Some b' -> cop_ok O (length b) o -> bits b -> forall i, cop_at o i ->
+  qstep O o b (basis_tensor O b) i = kmul O (cop_phase O o b) (basis_tensor O b' i).
+Proof. exact @classical_tracks. Qed.
+Print Assumptions C01_classical_tracks.
+Theorem C01_classical_run_tracks : forall K (O : Ops K), Laws O -> forall n ops b b',
+  classical_run ops b = Some b' -> Forall (cop_ok O n) ops -> Forall cop_qubit ops -> length b = n -> bits b ->
+  forall i, Forall2 lt i (repeat 2 n) ->
+  qrun O ops b (basis_tensor O b) i = kmul O (run_phase O ops b) (basis_tensor O b' i).
+Proof. exact @classical_run_tracks. Qed.
+Print Assumptions C01_classical_run_tracks.
+(* the even-exponent identity test is right for qubits only: for a 4-level X an even exponent is not the identity (exact
+   witness; the defect this exposed in /repo - the test ignored XPowGate.dimension - is repaired) *)
+Theorem C01_is_identity_ignores_dimension_refuted :
+  let r := kopp K8Ops (k1 K8Ops) in kmul K8Ops r r = k1 K8Ops /\
+  exists i, apply K8Ops (mat_of K8Ops [4] (spec_X4Pow K8Ops r r (k1 K8Ops))) [4] [0] (basis_tensor K8Ops [0]) i
+            <> kmul K8Ops (k1 K8Ops) (basis_tensor K8Ops [0] i).
+Proof. exact is_identity_ignores_dimension_refuted. Qed.
+Print Assumptions C01_is_identity_ignores_dimension_refuted.
+
+(* ---- axis permutations (Sim/PermuteProofs.v): qubit_order arguments and transpose_to_qubit_order ---- *)
+Theorem C01_apply_permute : forall K (O : Ops K) U dims pi ax' (psi : tensor (K:=K)) i,
+  NoDup pi -> (forall a, In a ax' -> a < length pi) -> (forall p, In p pi -> p < length i) ->
+  apply O U dims (gets pi ax') (tperm pi psi) i = tperm pi (apply O U dims ax' psi) i.
+Proof. exact @apply_permute. Qed.
+Print Assumptions C01_apply_permute.
+Theorem C01_run_permute : forall K (O : Ops K) pi (ops : list (rop (K:=K))) psi i,
+  NoDup pi -> (forall p, In p pi -> p < length i) ->
+  (forall o, In o ops -> forall a, In a (rop_ax o) -> a < length pi) ->
+  run O (map (rop_relabel pi) ops) (tperm pi psi) i = tperm pi (run O ops psi) i.
+Proof. exact @run_permute. Qed.
+Print Assumptions C01_run_permute.
